@@ -52,8 +52,8 @@ def cfgs(prop, tier):
             forks=["London"] if q else ["Byzantium", "Istanbul", "London", "Shanghai", "Cancun"])
     if prop == "C05":
         # A: firing sequence at provider level (no Aspect bound: the provider sees every firing)
-        a = {"Ops": '{"CALL", "STOP", "RETURN", "REVERT", "INVALID"}', "CallKinds": '{"CALL", "DELEGATECALL", "STATICCALL"}',
-             "Targets": '{"a", "b", "p"}', "Values": "{0, 1}", "ArgLens": "{0, 1}",
+        a = {"Ops": '{"CALL", "STOP", "RETURN", "REVERT", "INVALID"}', "CallKinds": '{"CALL", "DELEGATECALL"}',
+             "Targets": '{"a", "b", "p", "z"}', "Values": "{0, 1}", "ArgLens": "{0, 1}", "GasModes": '{"all", "none"}',
              "FailKinds": '{"err"}', "MaxFailPos": "2", "BoundSets": "{{}}", "JPInit": "{TRUE}", "JPToggle": "TRUE",
              "MaxTop": "2", "TopTargets": '{"a", "n"}', "MaxInstr": "2", "MaxNodes": "3"}
         # B: payloads as received by real WASM Aspects bound to both contracts (about 25 ms per scenario, one thread:
